@@ -33,7 +33,7 @@ MODULES = ["PdsVerif.Props.C11", "PdsVerif.Lemmas.ReadSignal"]
 MODEL_MODULES = ["PdsVerif.Model.ReadSignal", "PdsVerif.Generated.ReadSig"]
 REQUIRED = ["PdsVerif.C11." + n for n in """
     regex_is_modelled tableMatch_iff inferKind_total no_suffix_ioerror_iff no_suffix_ioerror table_rspecifier sf_suffix
-    suffix_maps_to_kind pipe_suffix sf_before_wav wav_precedence_irrelevant bare_type_name lastSeg_mem_iff
+    suffix_maps_to_kind pipe_suffix wav_precedence_irrelevant bare_type_name lastSeg_mem_iff
     sfTypes_wellformed stream_needs_force_as kaldi_on_stream unknown_force_as force_as_reader force_as_reader_stream
     wav_reader inferred_type_is_dispatchable default_key_arr0 default_key_hdf5 default_key_table kaldi_default_dtype
     h5_first_dataset h5_never_out_of_fuel h5_visit_order final_cast_generic final_cast_readers dtype_to_decoder
